@@ -313,6 +313,9 @@ def eq_values(l, r):
         if isinstance(l, SFlags) and isinstance(r, SFlags) and l.cls is r.cls:
             return wrap_bool(z3.And(*[l.bits[m] == r.bits[m] for m in l.bits]))
         sf, other = (l, r) if isinstance(l, SFlags) else (r, l)
+        if isinstance(other, (set, frozenset, list, tuple)) and any(V.is_symbolic(x) for x in other):
+            # a native collection that holds symbolic members cannot be compared member by member
+            raise E.Unsupported('comparison of a symbolic flag set with a collection of symbolic members')
         if isinstance(other, (set, frozenset)):
             return wrap_bool(z3.And(*[sf.bits[m] == z3.BoolVal(m in other) for m in sf.bits]))
         return False
